@@ -10,6 +10,7 @@ CONSTANTS MaxLinks = 2
  Streaming = FALSE
  PinSer = FALSE
  PinBos = FALSE
+ Spans = {0}
  PLen = 2
  ReadLens = {100}
  MaxCalls = 2
